@@ -27,6 +27,7 @@ fn main() {
             return;
         }
         let args: Vec<String> = std::env::args().collect();
+        if std::env::var("VERIF_BT").is_ok() { eprintln!("{}", std::backtrace::Backtrace::force_capture()); }
         if args.get(1).map(|s| s.as_str()) == Some("oracle") {
             let cur = util::CURRENT.with(|c| c.borrow().clone());
             let msg = format!("{}", info).replace('\n', " ");
